@@ -80,37 +80,28 @@ Proof. exact command_composition. Qed.
 Theorem C15_stacks_restored : forall cc s st, fst (fst (exec cc s st)) = st.
 Proof. exact stacks_restored. Qed.
 
-(** Flagship, part B (partial): whole programs -- calls, final stacks, propagation of
-    the exception -- are accepted by the executable specification when every sudo
-    call passes its env itself or nothing is configured under run.env.  Missing:
-    sudo calls relying on configured run.env, for which the statement is false
-    (next theorem, F-C15). *)
-Theorem C15_program_meets_spec_partial : forall cc prog,
-  guard_prog cc prog = true ->
+(** Flagship, part B (full strength): whole programs of nested cd / prefix / try
+    blocks around run and sudo calls -- the arguments of [start] call by call, the
+    final stacks, the propagation of the exception -- are accepted by the executable
+    specification.  ([cfg_sane]: the configured options are not themselves refused;
+    otherwise every call raises before reaching the runner.) *)
+Theorem C15_program_meets_spec : forall cc prog,
+  cfg_sane cc = true ->
   spec_ok_ctx cc prog (snd (fst (run_program cc prog))) (fst (fst (run_program cc prog)))
               (snd (run_program cc prog)) = true.
 Proof. exact program_meets_spec. Qed.
 
-Theorem C15_sudo_wraps_prefixed_partial : forall cc fs cmd u e,
-  cfg_sane cc = true -> sudo_env_given cc e = true ->
+(** sudo wraps the same prefixed command with the prompt, [--preserve-env] naming the
+    variables of the effective env option (keyword argument, else run.env) and the
+    user flags -- below any nesting of blocks. *)
+Theorem C15_sudo_wraps_prefixed : forall cc fs cmd u e,
+  cfg_sane cc = true ->
   truthy (want (cc_run cc) (only_env e) Dry) = false ->
   snd (fst (run_program cc (nest fs [SSudo cmd u e])))
   = [Some (sudo_wrapped cc u e (composed fs cmd), want (cc_run cc) (only_env e) Shell,
            generate_env (want (cc_run cc) (only_env e) Env)
                         (want (cc_run cc) (only_env e) ReplaceEnv) (cc_parent cc))].
 Proof. exact sudo_wraps_prefixed. Qed.
-
-(** F-C15: with run.env = {A: x} configured, [sudo("whoami")] hands A=x to the child
-    but builds no [--preserve-env]. *)
-Theorem C15_sudo_wraps_prefixed_refuted :
-  exists cc prog,
-    cfg_sane cc = true /\
-    (exists cmd sh e, snd (fst (run_program cc prog)) = [Some (cmd, sh, e)] /\
-                      lookup_env "A" e = Some "x"%string /\
-                      cmd = "sudo -S -p 'P:' whoami"%string) /\
-    spec_ok_ctx cc prog (snd (fst (run_program cc prog))) (fst (fst (run_program cc prog)))
-                (snd (run_program cc prog)) = false.
-Proof. exact sudo_refuted. Qed.
 
 (** Non-vacuity. *)
 Example C15_example_interactions :
@@ -130,7 +121,7 @@ Example C15_example_program :
                  [SBlock BTry [SBlock (BCd "b c") [SRun "ls"; SRaise; SRun "never"]];
                   SSudo "w" None (Some (ODict [("X", "1")]))]];
                SRun "end"] in
-  guard_prog cc prog = true /\
+  cfg_sane cc = true /\
   map (fun c => match c with Some (cmd, _, _) => cmd | None => ""%string end)
       (snd (fst (run_program cc prog)))
   = ["cd /a/b\ c && p1 && ls"; "sudo -S -p 'P:' --preserve-env='X' -H -u bob cd /a && p1 && w"; "end"]%string /\
@@ -169,3 +160,17 @@ Theorem C15_hide_table :
   (forall v o e l, normalize_hide v o e = Some l ->
      (o <> ONone -> ~ In "stdout"%string l) /\ (e <> ONone -> ~ In "stderr"%string l)).
 Proof. exact hide_table. Qed.
+
+(** * Historical record -- NOT about the code in /repo
+    Before fix c2a3b37 [_sudo] built [--preserve-env] from the env keyword argument
+    only (F-C15): with run.env = {A: x} configured, [sudo("whoami")] handed A=x to
+    the child without telling sudo to preserve it.  The witness is in corpus/C15 and
+    now has to pass on the implementation. *)
+Theorem C15_before_fix_sudo_historical_refuted :
+  exists cc u e prefixed,
+    cfg_sane cc = true /\
+    want (cc_run cc) (only_env e) Env = ODict [("A", "x")] /\
+    sudo_command_before_fix (cc_prompt cc) (match u with Some x => x | None => cc_user cc end) e prefixed
+    = "sudo -S -p 'P:' whoami"%string /\
+    sudo_wrapped cc u e prefixed = "sudo -S -p 'P:' --preserve-env='A' whoami"%string.
+Proof. exact sudo_before_fix_refuted. Qed.
